@@ -388,10 +388,8 @@ def run(tier, seed):
 def replay(path):
     d = json.load(open(path))
     w = d['witness']
-    a = scenario(w['threshold'], tuple(w['history']), w['crash_offset'], tuple(w['continuation']),
-                 None if w['second'] is None else tuple(w['second']), w['advance'])
-    b = scenario(w['threshold'], tuple(w['history']), w['crash_offset'], tuple(w['continuation']),
-                 None if w['second'] is None else tuple(w['second']), w['advance'])
+    a, b = report.twice(scenario, w['threshold'], tuple(w['history']), w['crash_offset'], tuple(w['continuation']),
+                        None if w['second'] is None else tuple(w['second']), w['advance'])
     if a != b:
         print('HARNESS-ERROR: replay is not deterministic')
         return 2
